@@ -339,6 +339,11 @@ impl<'a> Socket<'a> {
         if dhcp_repr.transaction_id != self.transaction_id {
             return;
         }
+        if !src_ip.x_is_unicast() {
+            // We may later have to send unicast renewals to this address.
+            net_debug!("DHCP ignoring packet from non-unicast address {}", src_ip);
+            return;
+        }
         let server_identifier = match dhcp_repr.server_identifier {
             Some(server_identifier) => server_identifier,
             None => {
